@@ -44,6 +44,8 @@ func main() {
 		}
 	case "engine-selftest-inner":
 		cmdEngineInner()
+	case "tagaudit":
+		cmdTagAudit()
 	case "matrix":
 		cmdMatrix(os.Args[2:])
 	case "locals":
